@@ -8,6 +8,11 @@
    "subject" field of a manifest ([subj], JSON decoding is external). *)
 From Oras Require Import Base.Prelude Base.Regex Generated.GC20 Model.Reference.
 
+(* C13 runs with every registered hash implementation linked (sha256, sha384, sha512): C20's
+   [avail] parameter (which digest algorithms are available) is instantiated with "all". *)
+Notation valid_digest := (Reference.valid_digest (fun _ => true)).
+Notation repo_parse := (Reference.repo_parse (fun _ => true)).
+
 (* ---------- descriptors, requests, responses ---------- *)
 
 Record desc := mkDesc { d_mt : str; d_dg : str; d_sz : N }.
